@@ -1465,6 +1465,10 @@ where
                 .map(|(condset, features)| {
                     // if this is an empty conditionset, leave the offset null
                     let condset = (!condset.conditions.is_empty()).then_some(condset);
+                    // the spec wants substitution records ordered by feature index, and the
+                    // iteration order of the map is different in every process
+                    let mut features = features.into_iter().collect::<Vec<_>>();
+                    features.sort_by_key(|(feat_id, _)| *feat_id);
                     FeatureVariationRecord::new(
                         condset,
                         FeatureTableSubstitution::new(
